@@ -163,3 +163,10 @@ add("C21", "model_checking",
     "For each scope (two properties, two classes, class and enumeration, two literals) and each of the eight targets the real naming functions run on two symbolic identifiers; every path on which two generated names "
     "coincide is a candidate whose witness is written into a meta-model: if the real front end accepts it, every target in which the names coincide must report an error from verify_for_types / generate.",
     "Identifiers of <= 3 (4) characters over {a,b,A,B,_,1}; one witness per path class of the naming code reaches the generators (stated). Two open known findings (C#/Java literals, JSON property names).")
+
+add("C05", "model_checking",
+    "solver-enumerated family of class DAGs (CrossHair/z3 forks over edge, abstract and model-type booleans) decoded into meta-model text, run through the real front end and compared with a reference closure / stacking / in-lining computation",
+    "Every DAG over 2..4 classes, every abstract/concrete and with_model_type assignment is decoded into a meta-model whose classes own one property, one invariant and a constructor calling all base constructors; "
+    "the real parse + intermediate.translate run on it and ancestors, descendants, concrete descendants, is_subclass_of, stacked properties/invariants (each once, ancestors first, own last), the in-lined constructor "
+    "(each property assigned exactly once), interfaces, the topological order and the propagation of with_model_type are compared with an independent reference.",
+    "Finite family: the solver acts as an exhaustive enumerator and the front end runs concretely (stated honestly in DESIGN.md). Declaration order = index order; no methods.")
